@@ -166,7 +166,10 @@ struct EpHarness : Harness {
         R.src.begin_op(o.get("ss")); R.snk.begin_op(o.get("ks"));
         const size_t sp0 = R.src.pos;
         const size_t remaining = R.src.data.size() - sp0;
-        const uint64_t budget = 8 * ((invalid ? 0 : n) + R.src.script.e.size() + R.snk.script.e.size()) + 64;
+        // an auxiliary-buffer operation may move up to its region per round, whatever n says
+        uint64_t aux_region = 0;
+        { const Json &a = o.get("aux"); int64_t z = a.ati(0, 4), u = a.ati(1, z); if (z < 1) z = 1; if (z > 4096) z = 4096; if (u < 1) u = 1; if (u > z) u = z; aux_region = (uint64_t)u; }
+        const uint64_t budget = 8 * ((invalid ? 0 : n) + aux_region + R.src.script.e.size() + R.snk.script.e.size()) + 64;
         const uint64_t drain_budget = budget + 8 * remaining;
         ssize_t rc = 0;
         bool finished = true;
